@@ -1,7 +1,128 @@
-(* Dispatcher of the model area: component tree: parse, serialise, API, walk, equality, used time zones (C01 C02 C04 C09 C10 C18 C20).
-   [dispatch_tree f a] = Some result when [f] names a function of this area.  Definitions only. *)
-Require Import Lib.Base.
+(* Dispatcher of the model area: component tree -- parse, serialise, walk, used time zones
+   (C01 C02 C04 C09 C10 C18 C20).  Definitions only. *)
+Require Import Lib.Base Lib.Chain Gen.Gen_parser Gen.Gen_cal Model.Text Model.Params Model.Fold Model.Contentline
+        Model.Dispatch Model.Tree.
 From Coq Require Import String.
 Local Open Scope string_scope.
 
-Definition dispatch_tree (f : list N) (a : jv) : option jv := None.
+(* ---- wire forms *)
+Definition jvalue (v : value) : jv := JL [JS (v_class v); jparams (v_params v); JS (v_text v)].
+Definition jentry (kv : list N * pentry) : jv :=
+  JL [JS (fst kv); jbool (match snd kv with Many _ => true | One _ => false end);
+      JL (map jvalue (entry_values (snd kv)))].
+Definition jerrent (e : option (list N)) : jv := match e with Some n => JS n | None => JL [] end.
+Fixpoint jcomp (c : comp) : jv :=
+  let '(Comp n ps subs es) := c in
+  JL [JS n; JL (map jentry ps); JL (map jcomp subs); JL (map jerrent es)].
+
+Definition value_of (j : jv) : option value :=
+  match j with
+  | JL [JS c; JL ps; JS t] => option_map (fun ps' => {| v_class := c; v_params := ps'; v_text := t |}) (params_of ps)
+  | _ => None
+  end.
+Fixpoint opt_all {A} (l : list (option A)) : option (list A) :=
+  match l with
+  | [] => Some []
+  | Some x :: r => option_map (cons x) (opt_all r)
+  | None :: _ => None
+  end.
+Definition entry_of (j : jv) : option (list N * pentry) :=
+  match j with
+  | JL [JS k; JZ many; JL vs] =>
+      match opt_all (map value_of vs) with
+      | Some vals => if (many =? 0)%Z then match vals with [v] => Some (k, One v) | _ => None end
+                     else Some (k, Many vals)
+      | None => None
+      end
+  | _ => None
+  end.
+Definition errent_of (j : jv) : option (option (list N)) :=
+  match j with JS n => Some (Some n) | JL [] => Some None | _ => None end.
+Fixpoint comp_of (j : jv) : option comp :=
+  match j with
+  | JL [JS n; JL ps; JL subs; JL es] =>
+      match opt_all (map entry_of ps), opt_all (map comp_of subs), opt_all (map errent_of es) with
+      | Some ps', Some subs', Some es' => Some (Comp n ps' subs' es')
+      | _, _, _ => None
+      end
+  | _ => None
+  end.
+
+Definition res_of {A} (f : jv -> option A) (j : jv) : option (res A) :=
+  match j with
+  | JL [JS t; JS k] => if is t "err" then Some (if is k "ValueError" then ValueErr else Escape k) else option_map Ok (f j)
+  | _ => option_map Ok (f j)
+  end.
+
+(* ---- the decoder oracle: association list ((type key, value text, TZID handed over) -> outcome) *)
+Definition okey := (list N * list N * option pval)%type.
+Definition pval_eqb (a b : pval) : bool :=
+  match a, b with
+  | PStr x, PStr y => str_eqb x y
+  | PList x, PList y => strs_eqb x y
+  | _, _ => false
+  end.
+Definition okey_eqb (a b : okey) : bool :=
+  let '(k1, v1, t1) := a in let '(k2, v2, t2) := b in
+  str_eqb k1 k2 && str_eqb v1 v2 &&
+  match t1, t2 with Some x, Some y => pval_eqb x y | None, None => true | _, _ => false end.
+Fixpoint olookup (o : list (okey * res (list N))) (k : okey) : res (list N) :=
+  match o with
+  | [] => Escape (s2l "oracle-miss")
+  | (k', r) :: rest => if okey_eqb k k' then r else olookup rest k
+  end.
+Definition oentry_of (j : jv) : option (okey * res (list N)) :=
+  match j with
+  | JL [JS key; JS vals; JL tz; r] =>
+      let tz' := match tz with [t] => option_map Some (pval_of t) | [] => Some None | _ => None end in
+      match tz', res_of jv_str r with
+      | Some t, Some r' => Some ((key, vals, t), r')
+      | _, _ => None
+      end
+  | _ => None
+  end.
+Definition cache_of (j : jv) : option (res unit) := res_of (fun _ => Some tt) j.
+
+Definition jcomps (l : list comp) : jv := JL (map jcomp l).
+
+Definition dispatch_tree (f : list N) (a : jv) : option jv :=
+  if is f "tree_parse" then
+    Some match a with
+    | JL [JS text; JZ multiple; JL oracle; JL cacheo] =>
+        match opt_all (map oentry_of oracle), opt_all (map cache_of cacheo) with
+        | Some o, Some c => jres jcomps (parse (fun k v t => olookup o (k, v, t)) c (negb (multiple =? 0)%Z) text)
+        | _, _ => junsupported
+        end
+    | _ => junsupported end
+  else if is f "tree_ser" then
+    Some match a with
+    | JL [c; JZ sorted] =>
+        match comp_of c with
+        | Some c' => jres JS (ser (negb (sorted =? 0)%Z) c')
+        | None => junsupported
+        end
+    | _ => junsupported end
+  else if is f "tree_walk" then
+    (* names of the components returned by walk(name) together with their pre-order index *)
+    Some match a with
+    | JL [c; JL q] =>
+        match comp_of c, q with
+        | Some c', [JS n] => jcomps (walk (Some n) c')
+        | Some c', [] => jcomps (walk None c')
+        | _, _ => junsupported
+        end
+    | _ => junsupported end
+  else if is f "tree_used_tzids" then
+    Some match a with
+    | c => match comp_of c with Some c' => JL (map jpval (used_tzids c')) | None => junsupported end
+    end
+  else if is f "type_key" then
+    Some match a with JS n => if all_ascii n then JL [JS (type_key n); match class_name_of_key (type_key n) with Some c => JS c | None => JL [] end] else junsupported | _ => junsupported end
+  else if is f "canonsort_keys" then
+    Some match a with
+    | JL [JL keys; JL canon] =>
+        match jv_strs keys, jv_strs canon with
+        | Some k, Some c => jstrs (canonsort_keys k c)
+        | _, _ => junsupported end
+    | _ => junsupported end
+  else None.
